@@ -83,7 +83,7 @@ def Goal_never_early : Prop :=
 /-! ## non-vacuity: a concrete plan exported by the real planner (44100 → 48000, HQ) meets the hypotheses -/
 
 def exStages : List Stage :=
-  [ { cfg := { kind := .clocked, prePost := 15, den := 80, step := 147, poly0 := true }, st := { occ := 8, clk := 40, isz := 8192 } },
+  [ { cfg := { kind := .clocked, prePost := 15, den := 80, step := 147, poly0 := true, taps := 16 }, st := { occ := 8, clk := 40, isz := 8192 } },
     { cfg := { kind := .dft, L := 2, dftLen := 2048, numTaps := 409, M := 1 }, st := { occ := 102, clk := 0, isz := 1024 } } ]
 
 def exEng : Eng := { stages := exStages }
